@@ -80,7 +80,7 @@ check("C04",
 check("C18",
       "TLC exhausts JobMap.tla (histories of <=3 jobmap runs over 2-3 source keys with scripted per-item outcomes ok / fail / "
       "omit-return-file / killed-by-a-signal-after-writing-a-partial-return-file / succeed-on-2nd-attempt (every job has a second "
-      "command that always succeeds; the job argument reaches the program on the command line or only through an input file), two argument versions, pre-populated, foreign-key and fresh destinations; "
+      "command that always succeeds; the job argument reaches the program on the command line, only through an input file, or only through the job's environment), two argument versions, pre-populated, foreign-key and fresh destinations; "
       "plain and vectorised jobs) for DestIsExactlySuccesses, ForeignKeysUntouched, NoReuseOfStaleOrFailed, "
       "AtMostOncePerValidInput, MustExecuteInvalid, RerunOnlyMissing.  Root paths of the TLC graph covering every abstract "
       "per-item situation class (+ seeded random paths) are replayed with the real jobmap() and real _molli_run "
